@@ -146,6 +146,38 @@ def is_err_body(body):
     return False
 
 
+def width_fn_key(c):
+    """key of the decoder's width function: the one function of candid::de that takes a PrimitiveType by value and returns usize
+    (found by signature, so renaming it is not an event)"""
+    keys = [k for k, h in c.hir.items() if k.startswith("candid::de::") and h.get("kind") == "Fn" and len(h.get("params") or []) == 1
+            and str((h["params"][0] or {}).get("ty") or "").endswith("de::PrimitiveType")
+            and k in c.bodies and c.bodies[k].locals[0]["ty"] == "usize"]
+    if len(keys) != 1:
+        raise AnchorMissing(f"expected one fn(PrimitiveType) -> usize in candid::de, found {keys}")
+    return keys[0]
+
+
+def with_local_callees(c, h, depth=1, same_file=True):
+    """h and the crate-local functions it calls directly (depth levels), each with the call node that reaches it:
+    [(fn item, call node or None)].  Lets a rule about `f` survive the extraction of part of f into a private helper."""
+    out = [(h, None)]
+    seen = {h["key"]}
+    frontier = [h]
+    for _ in range(depth):
+        nxt = []
+        for g in frontier:
+            for n in walk(g["body"]):
+                if n.get("k") in ("call", "mcall"):
+                    k = callee(n)
+                    if k and k in c.hir and k not in seen and c.hir[k].get("body") is not None \
+                            and (not same_file or c.hir[k]["span"]["file"] == h["span"]["file"]):
+                        seen.add(k)
+                        out.append((c.hir[k], n))
+                        nxt.append(c.hir[k])
+        frontier = nxt
+    return out
+
+
 def panics_in(node):
     """macro-level panic family sites under node: list of (macro name, line)"""
     out = []
@@ -278,7 +310,7 @@ class Matrix:
         # (g) primitive_byte_cost
         self.pcost = {}
         try:
-            h = c.fn(r"candid::de::primitive_byte_cost$")
+            h = c.hir[width_fn_key(c)]
             m = the_match(h, r"PrimitiveType$", 2)
             for r in arm_rows(m):
                 v = lit_value(r["body"])
